@@ -174,3 +174,112 @@ Theorem C15_revert_model_extends_owners :
   forall ops, xrun (xops ops) = run ops.
 Proof. exact xrun_embeds. Qed.
 Print Assumptions C15_revert_model_extends_owners.
+
+(* ---- PROGRESS for the whole alphabet (OwnersProgress.v, OwnersProgressRules.v,
+   OwnersProgressLoops.v, OwnersProgressFacts.v): the model never gets stuck under legal
+   use.  legal st op is executable and says only what the caller controls (the operation is
+   one of the current code; calls on a closed collection or store, on a handle that is not
+   in the table, merger / persister steps out of turn are no-ops of the model as they are
+   ErrClosed / nothing counted in the code) - no reference count, no liveness.  The
+   ownership invariant is strengthened by a kind discipline of the heap, the kinds of what
+   roots and handles point to, and what the merger's and persister's temporaries hold
+   between steps; every operation re-establishes it and runs to its end. *)
+From Moss Require Import OwnersProgress OwnersProgressRules OwnersProgressLoops OwnersProgressFacts.
+
+Theorem C15_legal_step_never_faults :
+  forall st o, reachable st -> legal st o = true -> exists st', step o st = Some st'.
+Proof. exact legal_step_never_faults. Qed.
+Print Assumptions C15_legal_step_never_faults.
+
+Theorem C15_legal_use_never_faults :
+  forall ops, legal_seq ops = true -> exists st, run ops = Some st.
+Proof. exact legal_use_never_faults. Qed.
+Print Assumptions C15_legal_use_never_faults.
+
+(* legal asks nothing but the alphabet of the current code *)
+Theorem C15_legal_is_current_code :
+  forall ops, legal_seq ops = true <-> forallb current_code ops = true.
+Proof. exact legal_seq_iff. Qed.
+Print Assumptions C15_legal_is_current_code.
+
+Theorem C15_ownership_invariant_unconditional :
+  forall ops, legal_seq ops = true ->
+  exists st, run ops = Some st /\
+    forall o, cnt_of (hp st) o = cn o (roots st) + cn o (allrefs (hp st)).
+Proof. exact ownership_invariant_unconditional. Qed.
+Print Assumptions C15_ownership_invariant_unconditional.
+
+Theorem C15_no_dangling_reference_unconditional :
+  forall ops, legal_seq ops = true ->
+  exists st, run ops = Some st /\
+    (forall o, In o (roots st) -> cnt_of (hp st) o > 0) /\
+    (forall a ob r, nth_error (hp st) a = Some ob -> In r (orefs ob) ->
+                    o_cnt ob > 0 /\ cnt_of (hp st) r > 0).
+Proof. exact no_dangling_reference_unconditional. Qed.
+Print Assumptions C15_no_dangling_reference_unconditional.
+
+Theorem C15_handle_data_alive_unconditional :
+  forall ops, legal_seq ops = true ->
+  exists st, run ops = Some st /\
+    forall hd r o, In hd (handles st) -> In r (hrefs hd) -> reach (hp st) r o ->
+      cnt_of (hp st) o > 0.
+Proof. exact handle_data_alive_unconditional. Qed.
+Print Assumptions C15_handle_data_alive_unconditional.
+
+Theorem C15_all_closed_all_released_unconditional :
+  forall ops, legal_seq ops = true ->
+  exists st, run ops = Some st /\
+    (all_closed st ->
+     (forall o, cnt_of (hp st) o = 0) /\ open_fds st = [] /\ mappings st = 0).
+Proof. exact all_closed_all_released_unconditional. Qed.
+Print Assumptions C15_all_closed_all_released_unconditional.
+
+(* the same for the extended system (XPrev, XRevert, XOpenColl and every embedded operation) *)
+From Moss Require Import OwnersRevertProgressFacts.
+
+Theorem C15_revert_legal_step_never_faults :
+  forall st x, xreachable st -> xlegal st x = true -> exists st', xstep x st = Some st'.
+Proof. exact xlegal_step_never_faults. Qed.
+Print Assumptions C15_revert_legal_step_never_faults.
+
+Theorem C15_revert_legal_use_never_faults :
+  forall ops, xlegal_seq ops = true -> exists st, xrun ops = Some st.
+Proof. exact xlegal_use_never_faults. Qed.
+Print Assumptions C15_revert_legal_use_never_faults.
+
+Theorem C15_revert_legal_is_current_code :
+  forall ops, xlegal_seq ops = true <-> forallb xcurrent_code ops = true.
+Proof. exact xlegal_seq_iff. Qed.
+Print Assumptions C15_revert_legal_is_current_code.
+
+Theorem C15_revert_ownership_invariant_unconditional :
+  forall ops, xlegal_seq ops = true ->
+  exists st, xrun ops = Some st /\
+    forall o, cnt_of (hp st) o = cn o (roots st) + cn o (allrefs (hp st)).
+Proof. exact x_ownership_invariant_unconditional. Qed.
+Print Assumptions C15_revert_ownership_invariant_unconditional.
+
+Theorem C15_revert_no_dangling_reference_unconditional :
+  forall ops, xlegal_seq ops = true ->
+  exists st, xrun ops = Some st /\
+    (forall o, In o (roots st) -> cnt_of (hp st) o > 0) /\
+    (forall a ob r, nth_error (hp st) a = Some ob -> In r (orefs ob) ->
+                    o_cnt ob > 0 /\ cnt_of (hp st) r > 0).
+Proof. exact x_no_dangling_reference_unconditional. Qed.
+Print Assumptions C15_revert_no_dangling_reference_unconditional.
+
+Theorem C15_revert_handle_data_alive_unconditional :
+  forall ops, xlegal_seq ops = true ->
+  exists st, xrun ops = Some st /\
+    forall hd r o, In hd (handles st) -> In r (hrefs hd) -> reach (hp st) r o ->
+      cnt_of (hp st) o > 0.
+Proof. exact x_handle_data_alive_unconditional. Qed.
+Print Assumptions C15_revert_handle_data_alive_unconditional.
+
+Theorem C15_revert_all_closed_all_released_unconditional :
+  forall ops, xlegal_seq ops = true ->
+  exists st, xrun ops = Some st /\
+    (all_closed st ->
+     (forall o, cnt_of (hp st) o = 0) /\ open_fds st = [] /\ mappings st = 0).
+Proof. exact x_all_closed_all_released_unconditional. Qed.
+Print Assumptions C15_revert_all_closed_all_released_unconditional.
